@@ -7,7 +7,7 @@
 //	  lists of up to 12 links over {absent,"","a","b","é","a b","00","0A","世界"} (VERIF_SEED);
 //	  each list as a generic link map (no Data) and as a UnixFS Directory; each both as the node
 //	  built in memory (order as given) and after dag-pb encode -> decode (links sorted);
-//	sharded directories: builder HAMTs, fanouts {8,256} | {8,16,64,256,1024}, 1 / 7 colliding /
+//	sharded directories: builder HAMTs, fanouts {8,32,256,1024} | all of 8..1024, 1 / 7 colliding /
 //	  200 | 2000 names.
 //
 // Contract checked on the reified node: MapIterator yields exactly Length() pairs, then Done();
@@ -231,7 +231,7 @@ func TestBounded(t *testing.T) {
 	}
 
 	shardedSets := map[string][]string{"one": {"a"}, "collide": append(vp.Colliding(4, 21, rng), vp.Colliding(3, 12, rng)...), "rand": vp.Names(vp.Pick(200, 2000), rng)}
-	for _, fanout := range vp.Pick([]int{8, 256}, []int{8, 16, 64, 256, 1024}) {
+	for _, fanout := range vp.Pick([]int{8, 32, 256, 1024}, []int{8, 16, 32, 64, 128, 256, 512, 1024}) {
 		for lbl, names := range shardedSets {
 			st := vp.NewStore()
 			var ents []dagpb.PBLink
